@@ -11,6 +11,7 @@ RULE = ('exhaustive: every subset of {0..n-1} containing both ends (n<=9 quick /
 ASSUMPTIONS = ['indices are non-negative Python ints / numpy ints (negative positions wrap in NumPy and are outside the statement)']
 
 
+@core.safe_case
 def check_one(ctx, reduced, I, order, family, float_rows=False):
     import kneeliverse.rdp as rdp
     n = reduced[-1] + 1
